@@ -1,0 +1,85 @@
+//go:build verif
+// +build verif
+
+package fit
+
+import (
+	"reflect"
+	"time"
+)
+
+// This file is only compiled with the "verif" build tag. It gives the
+// external verification harness a read-only view of the unexported profile
+// tables. No existing code is touched.
+
+// VerifField is one entry of the profile field lookup table.
+type VerifField struct {
+	Mesg     uint16
+	Num      uint8
+	Sindex   int
+	TypeBits uint16
+	Length   uint8
+	Slot     uint8 // index in the 256-entry row the entry was found at
+}
+
+// VerifProfile returns every non-nil entry of the field lookup table.
+func VerifProfile() []VerifField {
+	var out []VerifField
+	for m := range _fields {
+		for slot, f := range _fields[m] {
+			if f == nil {
+				continue
+			}
+			out = append(out, VerifField{
+				Mesg:     uint16(m),
+				Num:      f.num,
+				Sindex:   f.sindex,
+				TypeBits: uint16(f.t),
+				Length:   f.length,
+				Slot:     uint8(slot),
+			})
+		}
+	}
+	return out
+}
+
+// VerifKnownMesgNums returns the message numbers the decoder claims to know.
+func VerifKnownMesgNums() []uint16 {
+	var out []uint16
+	for m, ok := range knownMsgNums {
+		if ok {
+			out = append(out, uint16(m))
+		}
+	}
+	return out
+}
+
+// VerifTableLens returns the lengths of the field table, the message type
+// table and the constructor table.
+func VerifTableLens() (fields, types, ctors int) {
+	return len(_fields), len(msgsTypes), len(newMesgFuncs)
+}
+
+// VerifMesgType returns the struct type registered for a message number, or
+// nil.
+func VerifMesgType(m uint16) reflect.Type {
+	if int(m) >= len(msgsTypes) {
+		return nil
+	}
+	return msgsTypes[m]
+}
+
+// VerifNewMesg returns a pointer to a new all-invalid message, or the zero
+// Value if there is no constructor.
+func VerifNewMesg(m uint16) reflect.Value {
+	if int(m) >= len(newMesgFuncs) || newMesgFuncs[m] == nil {
+		return reflect.Value{}
+	}
+	return newMesgFuncs[m]()
+}
+
+// VerifDecodeDateTime exposes decodeDateTime.
+func VerifDecodeDateTime(u uint32) time.Time { return decodeDateTime(u) }
+
+// VerifEncodeTime exposes encodeTime.
+func VerifEncodeTime(t time.Time) uint32 { return encodeTime(t) }
